@@ -41,7 +41,7 @@ LocalX ==
          visB == Visible(E, R, Ev.cont)
          visA == IF ok THEN Visible(E2, R2, Ev.cont) ELSE <<>>
          seqOk ==
-           CASE call.a \in {"ins", "emb"} ->
+           CASE call.a \in {"ins", "emb", "insa"} ->
                   /\ Len(visA) >= Len(visB)
                   /\ SubSeq(visA, 1, call.i) = SubSeq(visB, 1, call.i)
                   /\ SubSeq(visA, call.i + 1 + (Len(visA) - Len(visB)), Len(visA)) = SubSeq(visB, call.i + 1, Len(visB))
@@ -53,11 +53,22 @@ LocalX ==
              [] call.a = "rem" -> visA = <<>>
              [] call.a = "fmt" -> visA = visB
              [] OTHER -> TRUE
-         (* a multi-operation transaction: every deletion it carries counts as explicit (stricter *)
-         (* SameInput, hence never more demanding for C01_Converge)                              *)
          XD2 == IF call.a \in {"del", "rem"} THEN XD \cup (Range(visB) \ Range(visA))
-                ELSE IF call.a = "multi" THEN XD \cup Ids(Ev.upd.del)
+                \* marks removed by a format call are not implied by anything the receivers integrate: they are input
+                (* a multi-operation transaction: every deletion it carries counts as explicit (stricter *)
+                (* SameInput, hence never more demanding for C01_Converge)                              *)
+                ELSE IF call.a \in {"fmt", "multi"} THEN XD \cup Ids(Ev.upd.del)
                 ELSE XD
+         \* sequential meaning of the rich-text calls on the rendered attributes (only where marks are around)
+         rich == ok /\ Ev.cont \in DOMAIN R2.lst /\ ~Keyed(E2, R2.lst[Ev.cont]) /\ Marked(E2, R2.lst[Ev.cont])
+         RB == RenderOf(E, R, Ev.cont)
+         RA == RenderOf(E2, R2, Ev.cont)
+         richOk ==
+           CASE call.a \in {"ins", "emb"} -> C03_RichInsert(RB, RA, call.i, newIds)
+             [] call.a = "insa" -> C03_RichInsertWith(RB, RA, call.i, newIds, call.key, call.v)
+             [] call.a = "del" -> C03_RichDelete(RB, RA, call.i, call.n)
+             [] call.a = "fmt" -> C03_RichFormat(RB, RA, call.i, call.n, call.key, call.v)
+             [] OTHER -> TRUE
          fresh == {us[i].id : i \in FreshIdx(us)}
          SEEN2 == [x \in DOMAIN SEEN \cup fresh |->
                      IF x \in DOMAIN SEEN THEN SEEN[x]
@@ -69,11 +80,13 @@ LocalX ==
                            <<"C04_FreshIds", \A i \in RealUnits(us) : us[i].id \notin DOMAIN E /\ us[i].id[1] = r>>,
                            <<"C04_AllIntegrated", newIds \subseteq Have(R2) /\ R2.pend = R.pend>>,
                            <<"C03_Sequential", Ev.outcome # "ok" \/ seqOk>>,
+                           <<"C03_RichSequential", Ev.outcome # "ok" \/ ~rich \/ richOk>>,
                            <<"C07_EmitIffChanged", Ev.nev = (IF changed THEN <<1, 1>> ELSE <<0, 0>>)>> >>
                      \o (IF Ev.hasfol THEN FolChecks(E2, R2, Ev.obs, Ev.fol.v1) \o FolChecks(E2, R2, Ev.obs, Ev.fol.v2) ELSE <<>>)
                      \o C11Checks(E2, R, R2)
          dr == (IF ok /\ ~PlacementPredicted(E2, R, R2) THEN {"placement"} ELSE {})
                \cup (IF ok /\ ~StashTight(R2) THEN {"stash-not-tight"} ELSE {})
+               \cup (IF ok THEN StrongDrift(E2, XD2, UserDel \cup Ids(Ev.upd.del), r, R2) ELSE {})
      IN /\ Record(Failing(chk), dr)
         /\ E' = E2 /\ XD' = XD2 /\ SEEN' = SEEN2
         /\ U' = IF call.a = "gcf" THEN U ELSE Append(U, [ins |-> InsIds(us), del |-> Ids(Ev.upd.del)])
